@@ -67,7 +67,11 @@ def render_block(blk, n, pos, pool):
     k = (n * 3 + pos) % 4
     if k <= 1 and len(lines) >= 1:      # never as the first line of a block: `--` right after a list reads as list text
         lines = lines[:1] + [COMMENTS[(n + 2 * pos) % len(COMMENTS)]] + lines[1:]
-    if blk["b"] == "code": return "\n".join(lines)
+    if blk["b"] == "code":
+        # LAYOUT dimension: top-level statements may be indented (a statement indented deeper than a preceding list item is still a
+        # statement, not a continuation of the item)
+        ind = "  " if (n + pos) % 2 == 0 else ""
+        return "\n".join(ind + ln for ln in lines)
     tag = "mech" if blk["ns"] == "" else "mech:" + concrete(blk["ns"], n)
     fence = "```" if (n + pos) % 2 == 0 else "~~~"
     return f"{fence}{tag}\n" + "\n".join(lines) + f"\n{fence}"
@@ -95,10 +99,28 @@ def run(rep, tier, seed):
     reqs = []
     for n, cs in enumerate(cases):
         blocks = [render_block(b, n, i, pool) for i, b in enumerate(cs["doc"])]
+        # a prose block that is followed by top-level statements is, in every third document, a LIST (a statement indented deeper than a
+        # list item, on the next line or after a blank line, is still a statement)
+        for i in range(len(cs["doc"]) - 1):
+            if cs["doc"][i]["b"] == "prose" and cs["doc"][i + 1]["b"] == "code" and n % 3 == 0 and blocks[i] != TITLE[1]:
+                blocks[i] = ["- first item\n- second item", "1. first step\n2. second step"][(n // 3 + i) % 2]
         blocks.insert(1 if blocks and blocks[0] == TITLE[1] else 0, S.FN_DEFS)       # function definitions change no variable
-        text = "\n\n".join(blocks) + "\n"
+        # blocks are separated by a blank line; a code block that follows a LIST is, in every third document, put directly on the next line
+        text = ""
+        for bi, btxt in enumerate(blocks):
+            if bi:
+                prev = blocks[bi - 1]
+                tight = (n // 2) % 2 == 0 and prev.startswith(("- ", "1. ")) and btxt.startswith("  ") \
+                        and not btxt.lstrip().startswith(("```", "~~~", "-", ">", "|", "(i)", "*", "1."))
+                text += "\n" if tight else "\n\n"
+            text += btxt
+        text += "\n"
         fns = sorted(concrete(f, n) for f in cs["subs"].keys())
         reqs.append({"id": n, "mode": "session", "stmts": [text], "opts": {"store": True, "names": names, "subs": fns}})
+    import re as _re
+    rep.cov["documents_with_an_indented_statement_directly_after_a_list"] = sum(1 for r in reqs if _re.search(r"(second item|second step)\n  \S", r["stmts"][0]))
+    rep.cov["documents_with_an_indented_statement_after_a_list_and_a_blank_line"] = sum(1 for r in reqs if _re.search(r"(second item|second step)\n\n  \S", r["stmts"][0]))
+    rep.cov["documents_with_indented_statements"] = sum(1 for r in reqs if _re.search(r"\n\n  [a-z~(]", r["stmts"][0]))
     outs = execpool.run_requests(reqs, nworkers=16, timeout=120)
     tally = collections.Counter()
     for n, (cs, req, (resp, oc)) in enumerate(zip(cases, reqs, outs)):
